@@ -120,6 +120,7 @@ class Ctx(object):
         self.exhaustive = None
         self._lock = threading.Lock()
         self._per_mech = {}
+        self._auto_samples = []
         self.t0 = time.time()
         self._known_keys = load_known_keys(prop)
 
@@ -154,6 +155,8 @@ class Ctx(object):
         """One executed case. ``desc`` identifies it (hashed for distinct counting)."""
         with self._lock:
             self.evaluations += 1
+            if len(self._auto_samples) < 2:
+                self._auto_samples.append(jsonable(desc))
             if nontrivial:
                 self.distinct.add(stable_hash(desc) if not isinstance(desc, str) or len(desc) != 16 else desc)
 
@@ -193,7 +196,7 @@ class Ctx(object):
     def dump(self):
         return {
             'counters': self.counters, 'maxima': self.maxima, 'evaluations': self.evaluations,
-            'distinct': sorted(self.distinct), 'samples': self.samples, 'violations': self.violations,
+            'distinct': sorted(self.distinct), 'samples': self.samples or [{'case': c} for c in self._auto_samples], 'violations': self.violations,
             'known_seen': self.known_seen, 'inconclusive': self.inconclusive_reasons, 'notes': self.notes,
             'exhaustive': self.exhaustive,
         }
@@ -265,7 +268,7 @@ def finish(ctx, mod):
         'evaluations': ctx.evaluations,
         'distinct_nontrivial': len(ctx.distinct),
         'rule': getattr(mod, 'RULE', ''),
-        'samples': ctx.samples,
+        'samples': ctx.samples or [{'case': c} for c in ctx._auto_samples],
         'monitor_counters': dict(sorted(ctx.counters.items())),
         'monitor_maxima': dict(sorted(ctx.maxima.items())),
         'known_findings_seen': {k: {'what': v[0], 'times': v[1]} for k, v in ctx.known_seen.items()},
